@@ -1,11 +1,15 @@
 import SqlgrepModel.Sexp
 import SqlgrepModel.Codec
 import SqlgrepModel.Model.ParseStmt
+import SqlgrepModel.Model.Lower
 /- Driver handler for the statement parser (C14, parser-level C20).
    `pstmt (<token>…)` → `ok <tree>` | `err <line> <column> <kind>` | `panic` | `fuel`
    token = `(<line> <column> <t>…)` with `<t>…` one of
      `i N` | `f BITS` | `s xHEX` | `id xHEX` | `kw name` | `o1 CP` | `o2 CP CP` | `p name`
    (`p`: null true false lp rp lsq rsq lcu rcu comma semi colon dcolon rarrow eof).
+   `stmt (<token>…) (rx (xPATTERN 0|1)…)` → `ok <lowered statement>` | `perr <line> <column> <kind>` (parser error)
+     | `cerr <line> <column> <kind>` (`ConvertParserTreeError`) | `panic` | `fuel`: parser + lowering
+     (`Lower.lowerStatement`), the statement in the encoding of `queries::stmt_sexp` / `extract::def_sexp`.
    The rendering of trees (`POp.render`) is the canonical s-expression the harness prints for the real
    `ParserOperationTree` (every node with its location). -/
 namespace Sqlgrep.Drivers.ParseStmt
@@ -185,6 +189,118 @@ def handle (args : List Sexp) : String :=
     match toks.mapM ptokOfSexp with
     | some ts => renderOutcome (Parse.parseTokens PrecTables.code ts)
     | none => "bad-case"
+  | _ => "bad-case"
+
+/-! ### lowered statements (`queries::stmt_sexp`, `extract::def_sexp`) -/
+
+open Lower in
+def showAggKind : AggKind → String
+  | .groupKey e c => "(gkey " ++ canon e ++ " " ++ hexName c ++ ")"
+  | .count c d => "(count " ++ (match c with | none => "(none)" | some c => hexName c) ++ (if d then " 1)" else " 0)")
+  | .min e => "(min " ++ canon e ++ ")"
+  | .max e => "(max " ++ canon e ++ ")"
+  | .sum e => "(sum " ++ canon e ++ ")"
+  | .avg e => "(avg " ++ canon e ++ ")"
+  | .stddev e v => "(stddev " ++ canon e ++ (if v then " 1)" else " 0)")
+  | .percentile e p => "(percentile " ++ canon e ++ " " ++ toString p ++ ")"
+  | .boolAnd e => "(booland " ++ canon e ++ ")"
+  | .boolOr e => "(boolor " ++ canon e ++ ")"
+  | .arrayAgg e => "(arrayagg " ++ canon e ++ ")"
+  | .stringAgg e d => "(stringagg " ++ canon e ++ " " ++ Sexp.showBytes d ++ ")"
+
+def showOptExpr : Option Expr → String
+  | none => "(none)" | some e => Lower.canon e
+def showOptNat : Option Nat → String
+  | none => "(none)" | some n => toString n
+def showFlag (b : Bool) : String := if b then "1" else "0"
+
+open Lower in
+def showSelectStmt (s : SelectStmt) : String :=
+  "(select (projs" ++ String.join (s.projections.map (fun p => " (" ++ hexName p.1 ++ " " ++ canon p.2 ++ ")")) ++ ") "
+    ++ showFlag s.wildcard ++ " " ++ showOptExpr s.filter ++ " " ++ showOptNat s.limit ++ " " ++ showFlag s.distinct ++ ")"
+
+open Lower in
+def showAggStmt (a : AggStmt) : String :=
+  "(agg (items" ++ String.join (a.items.map (fun it => " (" ++ hexName it.name ++ " " ++ showAggKind it.kind ++ " "
+      ++ showOptExpr it.transform ++ ")")) ++ ") "
+    ++ showOptExpr a.filter ++ " "
+    ++ (match a.groupBy with
+        | none => "(none)"
+        | some parts => "(groupby" ++ String.join (parts.map (fun p => " (" ++ canon p.1 ++ " " ++ hexName p.2 ++ ")")) ++ ")")
+    ++ " " ++ showOptExpr a.having
+    ++ " (haggs" ++ String.join (a.havingAggs.map (fun p => " (" ++ toString p.1 ++ " " ++ showAggKind p.2 ++ ")")) ++ ")"
+    ++ " (hkeys" ++ String.join (a.havingKeys.map (fun c => " " ++ hexName c)) ++ ")"
+    ++ " (hvisit" ++ String.join (a.havingVisit.map (fun
+        | .key c => " (key " ++ hexName c ++ ")"
+        | .agg id k => " (agg " ++ toString id ++ " " ++ showAggKind k ++ ")")) ++ ")"
+    ++ " " ++ showOptNat a.limit ++ " " ++ showFlag a.distinct ++ ")"
+
+open Lower in
+def showFrom (fromTable : String) (fromFile : Option String) (join : Option LJoin) : String :=
+  hexName fromTable ++ " " ++ (match fromFile with | none => "none" | some f => hexName f) ++ " "
+    ++ (match join with
+        | none => "nojoin"
+        | some j => "(join " ++ hexName j.joinedTable ++ " " ++ hexName j.joinedFilename ++ " " ++ hexName j.joinedColumn
+            ++ " " ++ hexName j.joinerColumn ++ " " ++ showFlag j.isOuter ++ ")")
+
+def showRef (r : Extract.Ref) : String := Sexp.showBytes r.pattern ++ " " ++ toString r.group
+
+def showTableDef (d : Extract.TableDef) : String :=
+  "(pats" ++ String.join (d.patterns.map (fun p => " (" ++ Sexp.showBytes p.name ++ (match p.mode with | .split => " split " | .captures => " cap ")
+      ++ Sexp.showBytes p.regex ++ ")")) ++ ") (cols"
+    ++ String.join (d.columns.map (fun c => " (col "
+      ++ (match c.parsing with
+          | .regex r => "(re " ++ showRef r ++ ")"
+          | .multi rs => "(multi" ++ String.join (rs.map (fun r => " (" ++ showRef r ++ ")")) ++ ")"
+          | .json a => "(json" ++ String.join (a.steps.map (fun
+              | .field n => " (f " ++ Sexp.showBytes n ++ ")"
+              | .index i => " (i " ++ toString i ++ ")")) ++ ")")
+      ++ " " ++ c.type.toWire ++ " " ++ showFlag c.options.nullable ++ " " ++ showFlag c.options.trim ++ " "
+      ++ showFlag c.options.convert ++ " " ++ showFlag c.options.microseconds ++ " "
+      ++ (match c.options.default with | none => "none" | some v => v.toWire) ++ ")")) ++ ")"
+
+def showLStmt1 : LStmt → String
+  | .select s f file j => "(lowered " ++ showSelectStmt s ++ " " ++ showFrom f file j ++ ")"
+  | .aggregate a f file j => "(lowered " ++ showAggStmt a ++ " " ++ showFrom f file j ++ ")"
+  | .createTable n d names => "(table " ++ Lower.hexName n ++ " " ++ showTableDef d ++ " (names"
+      ++ String.join (names.map (fun c => " " ++ Lower.hexName c)) ++ "))"
+  | .multiple _ => "(multiple)"
+
+def showLStmt : LStmt → String
+  | .multiple ss => "(multiple" ++ String.join (ss.map (fun s => " " ++ showLStmt1 s)) ++ ")"
+  | s => showLStmt1 s
+
+def renderCKind : CErrKind → String
+  | .undefinedOperator o => "(UndefinedOperator " ++ showOp o ++ ")"
+  | .expectedArgument => "ExpectedArgument" | .tooManyArguments => "TooManyArguments"
+  | .expectedColumnAccess => "ExpectedColumnAccess" | .unexpectedTuple => "UnexpectedTuple"
+  | .undefinedAggregate => "UndefinedAggregate" | .tooManyAggregates => "TooManyAggregates"
+  | .undefinedStatement => "UndefinedStatement" | .undefinedExpression => "UndefinedExpression"
+  | .undefinedFunction n => "(UndefinedFunction " ++ showChars n ++ ")"
+  | .invalidPattern => "InvalidPattern" | .havingClauseNotPossible => "HavingClauseNotPossible"
+  | .invalidOnJoin => "InvalidOnJoin" | .invalidJoinerTable t => "(InvalidJoinerTable " ++ showChars t ++ ")"
+  | .expectedFloat => "ExpectedFloat" | .expectedString => "ExpectedString"
+
+def regexTable (xs : List Sexp) : Option (List (List Char × Bool)) :=
+  xs.mapM (fun (x : Sexp) => match x with
+    | .list [p, .atom v] => do pure (← charsOf p, v == "1")
+    | _ => none)
+
+def handleStmt (args : List Sexp) : String :=
+  match args with
+  | [.list toks, .list (.atom "rx" :: rx)] =>
+    match toks.mapM ptokOfSexp, regexTable rx with
+    | some ts, some table =>
+      match Parse.parseTokens PrecTables.code ts with
+      | .tree t =>
+        match Lower.lowerStatement (fun p => ((table.find? (·.1 == p)).map (·.2)).getD true) t with
+        | .ok s => "ok " ++ showLStmt s
+        | .err e => "cerr " ++ showLoc e.loc ++ " " ++ renderCKind e.kind
+        | .panic _ => "panic"
+      | .error e => "perr " ++ showLoc e.loc ++ " " ++ renderKind e.kind
+      | .fuel => "fuel"
+      | .panic => "panic"
+    | _, _ => "bad-case"
   | _ => "bad-case"
 
 end Sqlgrep.Drivers.ParseStmt
